@@ -1,2 +1,496 @@
--- C20 property theorems (to be written)
-import Nq.Basic
+/-
+  C20 — No input can corrupt memory in any program of the suite.          (proof, PARTIAL)
+
+  What is proved here is the **length and index arithmetic** of the code that stands between
+  untrusted input and memory:
+    (a) gen_alloc / stralloc growth and quote.c doit()           — Nq.Stralloc
+    (b) substdio output and input buffers, with the stream laws  — Nq.Substdio
+    (c) the fixed buffers filled from network / child input      — Nq.FixedBuf (+ Nq.Spawn, Nq.Pop3,
+        Nq.SendReport of C18/C19 for slot numbers, message numbers and REPORTMAX)
+    (d) dns.c record walking over a bounded response             — Nq.Dns
+    (e) the cdb reader on arbitrary files                        — Nq.Users.cdbSeek (model of C11)
+  What is NOT proved (and cannot be carried by these models): absence of undefined behaviour in the
+  compiled C outside (a)–(e) — pointer aliasing, signal handlers, libc/libresolv, every parser's own
+  loops.  That part of the property is covered only by sanitised execution (harness/c20_*.c and the
+  ASan+UBSan builds used by every other property's harness) and is labelled so in the evidence.
+
+  Tie to the source: the models are compared with the real functions by harness/c20_lib.c and
+  harness/c20_dns.c on every run (DISAGREE channel); the constants and the presence of each guard are
+  regenerated from /repo into Nq.Gen.C20Bounds (translator).
+-/
+import Nq.Lemmas.C20Stralloc
+import Nq.Lemmas.C20Substdio
+import Nq.Lemmas.C20Dns
+import Nq.Lemmas.C20Fixed
+import Nq.Lemmas.C20Cdb
+import Nq.Gen.C20Bounds
+import Nq.Lemmas.SpawnL
+import Nq.Lemmas.SendL
+import Nq.Pop3
+
+namespace Nq.Props.C20
+open Nq Nq.Lemmas.C20
+open Nq.Gen.C20Bounds
+
+/-! ## (T) the sources still have the shape the theorems are about -/
+
+/-- every guard / buffer declaration the translator looks for was found in /repo -/
+theorem C20_sources_recognised : unrecognised = [] := by decide
+
+/-- the overflow checks of gen_allocdefs.h, stralloc_catb.c, stralloc_opyb.c, quote.c and the bounds
+checks of dns.c, spawn.c, qmail-pop3d.c, qmail-send.c, qmail-remote.c are present in the source -/
+theorem C20_checks_present :
+    allocChecked = true ∧ catbChecked = true ∧ quoteChecked = true ∧ dnsRdataChecked = true ∧
+    dnsHeaderChecked = true ∧ spawnDelnumChecked = true ∧ pop3MsgnoChecked = true ∧
+    reportmaxCut = true ∧ smtptextCapped = true ∧ strallocBase = 30 ∧ dnsIpLen = 4 ∧ dnsMxLen = 3 := by decide
+
+/-! ## (a) gen_alloc / stralloc / quote -/
+
+section alloc
+open Nq.Stralloc
+
+/-- **readyplus / ready.** For every element size, base, allocator behaviour, record and `n`
+(including `len`, `n` near 2³²): a successful call leaves a non-null record with `len ≤ a`, `a`
+elements inside the block (`a * sizeof ≤ cap`), room for what was asked (`n + pluslen ≤ a`, computed
+without wrap-around), and stores nothing. -/
+theorem C20_readyplus_sound (sz base : Nat) (grant : Nat → Bool) (x : GA) (n pluslen : Nat)
+    (hx : WF sz x) (hn : n < U32)
+    (h : (readyplusInternal sz base grant x n pluslen).ret = true) :
+    let o := readyplusInternal sz base grant x n pluslen
+    WF sz o.x ∧ o.x.nonnull = true ∧ o.st = [] ∧
+    (x.nonnull = true → n + pluslen ≤ o.x.a ∧ n + pluslen < U32 ∧ o.x.len = x.len) ∧
+    (x.nonnull = false → n ≤ o.x.a ∧ o.x.len = 0) := by
+  have := rpi_ok sz base grant x n pluslen hx hn h
+  unfold RPPost at this
+  exact ⟨this.1, this.2.1, this.2.2.1, this.2.2.2.2.1, this.2.2.2.2.2⟩
+
+/-- a failing call leaves a well-formed record, stores nothing and keeps the old block -/
+theorem C20_readyplus_fail (sz base : Nat) (grant : Nat → Bool) (x : GA) (n pluslen : Nat)
+    (hx : WF sz x) (h : (readyplusInternal sz base grant x n pluslen).ret = false) :
+    let o := readyplusInternal sz base grant x n pluslen
+    WF sz o.x ∧ o.st = [] ∧ o.x.nonnull = x.nonnull ∧ o.x.a = x.a ∧ o.x.cap = x.cap :=
+  rpi_fail sz base grant x n pluslen hx h
+
+/-- **no truncated allocation**: the byte count handed to malloc/realloc fits 32 bits and, on success,
+is exactly `a * sizeof(type)` — the multiplication did not wrap. -/
+theorem C20_alloc_request_exact (sz base : Nat) (grant : Nat → Bool) (x : GA) (n pluslen r : Nat)
+    (h : (readyplusInternal sz base grant x n pluslen).req = some r) :
+    let o := readyplusInternal sz base grant x n pluslen
+    r < U32 ∧ (o.ret = true → r = o.x.a * sz ∧ r = o.x.cap) :=
+  rpi_req sz base grant x n pluslen r h
+
+/-- **CVE-2005-1513 regime**: if `n + pluslen` does not fit `unsigned int` a non-null record is refused
+and left untouched, whatever the allocator would have said. -/
+theorem C20_readyplus_overflow_refused (sz base : Nat) (grant : Nat → Bool) (x : GA) (n pluslen : Nat)
+    (hnn : x.nonnull = true) (h : n + pluslen ≥ U32) :
+    readyplusInternal sz base grant x n pluslen = ⟨false, x, none, [], false⟩ :=
+  rpi_overflow sz base grant x n pluslen hnn h
+
+/-- **append**: the one element is stored at an index `< a`; `len` grows by one without wrap. -/
+theorem C20_append_sound (sz base : Nat) (grant : Nat → Bool) (x : GA) (hx : WF sz x)
+    (h : (append sz base grant x).ret = true) :
+    WF sz (append sz base grant x).x ∧ storesIn (append sz base grant x) ∧
+    (append sz base grant x).x.len = (if x.nonnull then x.len else 0) + 1 :=
+  append_ok sz base grant x hx h
+
+/-- **stralloc_catb**: both stores (the `n` copied bytes at `len`, the 'Z' after them) are inside
+the `a` allocated bytes, `len` becomes `len + n` exactly and stays `< a`. -/
+theorem C20_catb_sound (grant : Nat → Bool) (x : GA) (n : Nat) (hx : WF 1 x)
+    (h : (catb grant x n).ret = true) :
+    WF 1 (catb grant x n).x ∧ storesIn (catb grant x n) ∧
+    (catb grant x n).x.len = (if x.nonnull then x.len else 0) + n ∧
+    (catb grant x n).x.len < (catb grant x n).x.a :=
+  catb_ok grant x n hx h
+
+/-- **stralloc_copyb** likewise. -/
+theorem C20_copyb_sound (grant : Nat → Bool) (x : GA) (n : Nat) (hx : WF 1 x)
+    (h : (copyb grant x n).ret = true) :
+    WF 1 (copyb grant x n).x ∧ storesIn (copyb grant x n) ∧ (copyb grant x n).x.len = n ∧
+    n < (copyb grant x n).x.a :=
+  copyb_ok grant x n hx h
+
+/-- **catb near 2³²**: when `len + n + 1` does not fit, nothing is allocated, copied or changed. -/
+theorem C20_catb_overflow_refused (grant : Nat → Bool) (x : GA) (n : Nat) (hnn : x.nonnull = true)
+    (h : x.len + n + 1 ≥ U32) : catb grant x n = ⟨false, x, none, [], false⟩ :=
+  catb_overflow grant x n hnn h
+
+/-- **any sequence** of ready / readyplus / append / catb / copyb / `len := k ≤ a` keeps the record
+well-formed and every store inside the block (sizeof = 1, base 30: the `stralloc` instance). -/
+theorem C20_stralloc_ops_sound (grant : Nat → Bool) (x : GA) (op : Op) (hx : WF 1 x)
+    (hop : match op with
+      | .ready n => n < U32 | .readyplus n => n < U32 | .catb _ => True | .copyb _ => True | .append => True
+      | .setlen k => k ≤ x.a) :
+    WF 1 (apply 1 30 grant x op).x ∧ storesIn (apply 1 30 grant x op) := by
+  cases op with
+  | ready n =>
+    simp only [apply, ready]
+    by_cases h : (readyplusInternal 1 30 grant x n 0).ret = true
+    · have := rpi_ok 1 30 grant x n 0 hx hop h
+      unfold RPPost at this
+      exact ⟨this.1, by unfold storesIn; rw [this.2.2.1]; simp⟩
+    · have := rpi_fail 1 30 grant x n 0 hx (by simpa using h)
+      exact ⟨this.1, by unfold storesIn; rw [this.2.1]; simp⟩
+  | readyplus n =>
+    simp only [apply, readyplus]
+    by_cases h : (readyplusInternal 1 30 grant x n x.len).ret = true
+    · have := rpi_ok 1 30 grant x n x.len hx hop h
+      unfold RPPost at this
+      exact ⟨this.1, by unfold storesIn; rw [this.2.2.1]; simp⟩
+    · have := rpi_fail 1 30 grant x n x.len hx (by simpa using h)
+      exact ⟨this.1, by unfold storesIn; rw [this.2.1]; simp⟩
+  | append =>
+    simp only [apply]
+    by_cases h : (append 1 30 grant x).ret = true
+    · exact ⟨(append_ok 1 30 grant x hx h).1, (append_ok 1 30 grant x hx h).2.1⟩
+    · have hf : (readyplus 1 30 grant x 1).ret = false := by
+        unfold append at h; by_cases hr : (readyplus 1 30 grant x 1).ret = true
+        · simp [hr] at h
+        · simpa using hr
+      have e : append 1 30 grant x = readyplus 1 30 grant x 1 := by unfold append; simp [hf]
+      rw [e]; unfold readyplus at hf ⊢
+      have := rpi_fail 1 30 grant x 1 x.len hx hf
+      exact ⟨this.1, by unfold storesIn; rw [this.2.1]; simp⟩
+  | catb n =>
+    simp only [apply]
+    by_cases h : (catb grant x n).ret = true
+    · exact ⟨(catb_ok grant x n hx h).1, (catb_ok grant x n hx h).2.1⟩
+    · exact catb_fail grant x n hx (by simpa using h)
+  | copyb n =>
+    simp only [apply]
+    by_cases h : (copyb grant x n).ret = true
+    · exact ⟨(copyb_ok grant x n hx h).1, (copyb_ok grant x n hx h).2.1⟩
+    · exact copyb_fail grant x n hx (by simpa using h)
+  | setlen k =>
+    simp only [apply]
+    obtain ⟨h1, h2, h3⟩ := hx
+    refine ⟨⟨by simp only; omega, h2, fun hn => ⟨hop, (h3 hn).2⟩⟩, by unfold storesIn; simp⟩
+
+/-- **quote.c doit()** for an input of `inLen` bytes of which `esc` need a backslash: every byte
+written is inside the `2·inLen + 2` bytes made ready, `len` is exact; and the `int` counter `j`
+overflows **iff** `inLen + esc + 2 > INT_MAX`.  [PARTIAL as a safety statement: for inputs of 2³⁰
+bytes and more the C code increments a signed `int` past INT_MAX — see `C20_quote_int_overflow`.] -/
+theorem C20_quote_doit_partial (grant : Nat → Bool) (out : GA) (inLen esc : Nat) (hx : WF 1 out)
+    (he : esc ≤ inLen) (h : (quoteDoit grant out inLen esc).ret = true) :
+    WF 1 (quoteDoit grant out inLen esc).x ∧ storesIn (quoteDoit grant out inLen esc) ∧
+    (quoteDoit grant out inLen esc).x.len = inLen + esc + 2 ∧
+    ((quoteDoit grant out inLen esc).ub = true ↔ inLen + esc + 2 > INT_MAX) :=
+  quoteDoit_ok grant out inLen esc hx he h
+
+/-- below 2³⁰ input bytes the counter cannot overflow: `doit` is fully defined -/
+theorem C20_quote_doit_defined (grant : Nat → Bool) (out : GA) (inLen esc : Nat) (hx : WF 1 out)
+    (he : esc ≤ inLen) (hl : inLen < 1073741823) (h : (quoteDoit grant out inLen esc).ret = true) :
+    (quoteDoit grant out inLen esc).ub = false := by
+  have := (quoteDoit_ok grant out inLen esc hx he h).2.2.2
+  cases hu : (quoteDoit grant out inLen esc).ub
+  · rfl
+  · have := this.1 hu; unfold INT_MAX at this; omega
+
+/-- the complement (what the code does there): an address of 2³⁰ bytes that all need escaping passes
+both overflow checks, is granted 2³¹+2 bytes, and drives `int j` beyond INT_MAX (undefined behaviour;
+with wrap-around semantics a negative index).  Reachable only with a > 1 GiB address in memory. -/
+theorem C20_quote_int_overflow :
+    (quoteDoit (fun _ => true) {} 1073741824 1073741824).ret = true ∧
+    (quoteDoit (fun _ => true) {} 1073741824 1073741824).ub = true := by decide
+
+end alloc
+
+/-! ## (b) substdio -/
+
+section substdio
+open Nq.Substdio
+
+/-- **output side**: for every write script (short writes, errors), `put` / `bput` / `flush` /
+`putflush` keep `0 ≤ p ≤ n`, every byte_copy lies inside `x[0..n)`, and when the call succeeds the
+bytes handed to the descriptor followed by the bytes still buffered are exactly what was there before
+followed by the argument — nothing lost, duplicated or reordered. -/
+theorem C20_substdio_out (s : OSt) (o : OOp) (h : OWF s) (hc : cpIn s) :
+    OWF (oapply s o).1 ∧ cpIn (oapply s o).1 ∧ (oapply s o).1.n = s.n ∧
+    ((oapply s o).2 = true → (oapply s o).1.out ++ (oapply s o).1.buf = s.out ++ s.buf ++
+      (match o with | .put d => d | .bput d => d | .flush => [] | .putflush d => d)) :=
+  oapply_spec s o h hc
+
+/-- what the descriptor took is always a prefix of what it was offered (also on error) -/
+theorem C20_allwrite_prefix (ws : List Nat) (b : Bytes) :
+    (∃ t, b = (allwrite ws b).2.1 ++ t) ∧ ((allwrite ws b).2.2 = true → (allwrite ws b).2.1 = b) :=
+  allwrite_spec ws b
+
+/-- **input side, feed**: `n + p = size` is kept, the read and the shift stay inside the buffer, the
+stream is unchanged, and the bytes announced are the buffered ones. -/
+theorem C20_substdio_feed (s : ISt) (h : IWF s) :
+    IWF (feed s).1 ∧ (feed s).1.size = s.size ∧ (icpIn s → icpIn (feed s).1) ∧
+    (feed s).1.data ++ (feed s).1.src = s.data ++ s.src := by
+  obtain ⟨⟨a, b, c⟩, d, _⟩ := feed_spec s h
+  exact ⟨a, b, c, d⟩
+
+/-- **input side, get**: at most `len` bytes are copied to the caller (so a caller buffer of `len`
+bytes is never overrun), from inside `x`; they are the next bytes of the stream; end of file is
+reported only when the stream is exhausted. -/
+theorem C20_substdio_get (s : ISt) (len : Nat) (h : IWF s) :
+    IWF (Substdio.get s len).1 ∧ (Substdio.get s len).1.size = s.size ∧ (icpIn s → icpIn (Substdio.get s len).1) ∧
+    (match (Substdio.get s len).2 with
+     | .got b => b.length ≤ len ∧ b ++ ((Substdio.get s len).1.data ++ (Substdio.get s len).1.src) = s.data ++ s.src ∧ (0 < len → b ≠ [])
+     | .eof => (Substdio.get s len).1.data ++ (Substdio.get s len).1.src = s.data ++ s.src ∧ (Substdio.get s len).1.p = 0 ∧
+               (0 < len → (Substdio.get s len).1.src = [])
+     | .err => (Substdio.get s len).1.data ++ (Substdio.get s len).1.src = s.data ++ s.src) := by
+  obtain ⟨⟨a, b, c⟩, d⟩ := get_spec s len h
+  exact ⟨a, b, c, d⟩
+
+/-- **stream law**: successive gets return the source bytes in order, for every read chunking; if
+the loop ended at end of file the chunks are the whole stream. -/
+theorem C20_substdio_in_stream (fuel : Nat) (s : ISt) (len : Nat) (h : IWF s) :
+    IWF (drain fuel s len).1 ∧ (icpIn s → icpIn (drain fuel s len).1) ∧
+    (drain fuel s len).2.1.flatten ++ ((drain fuel s len).1.data ++ (drain fuel s len).1.src) = s.data ++ s.src ∧
+    (∀ b ∈ (drain fuel s len).2.1, b.length ≤ len) ∧
+    ((drain fuel s len).2.2 = true → 0 < len → (drain fuel s len).2.1.flatten = s.data ++ s.src) :=
+  drain_spec fuel s len h
+
+end substdio
+
+/-! ## (c) fixed buffers -/
+
+section fixed
+open Nq.FixedBuf
+
+/-- **qmail-qmqpd `buf[1000]`**: for every declared length every store index is inside `buf`. -/
+theorem C20_qmqpd_buf (len : Nat) : ∀ i ∈ qmqpdStores qmqpdGuard len, i < qmqpdBuf := by
+  intro i hi
+  unfold qmqpdStores at hi
+  have hg : qmqpdGuard ≤ qmqpdBuf := by decide
+  have hb : 0 < qmqpdBuf := by decide
+  by_cases c : len ≥ qmqpdGuard
+  · rw [if_pos c] at hi; simp at hi; omega
+  · rw [if_neg c] at hi; exact mem_range_append_lt (by omega) hi
+
+/-- **qmail-qmtpd `buf[1000]`, sender** -/
+theorem C20_qmtpd_sender_buf (len : Nat) : ∀ i ∈ qmtpdSenderStores qmtpdSenderGuard len, i < qmtpdBuf := by
+  intro i hi
+  unfold qmtpdSenderStores at hi
+  have hg : qmtpdSenderGuard ≤ qmtpdBuf := by decide
+  have hb : 0 < qmtpdBuf := by decide
+  by_cases c : len ≥ qmtpdSenderGuard
+  · rw [if_pos c] at hi; simp at hi; omega
+  · rw [if_neg c] at hi; exact mem_range_append_lt (by omega) hi
+
+/-- **qmail-qmtpd `buf[1000]`, recipient**: with `len + relayclientlen < 1000` the address, its NUL
+and the appended RELAYCLIENT string with its NUL all fit. -/
+theorem C20_qmtpd_rcpt_buf (len rcl : Nat) (relay : Bool) :
+    ∀ i ∈ qmtpdRcptStores qmtpdRcptGuard len rcl relay, i < qmtpdBuf := by
+  intro i hi
+  unfold qmtpdRcptStores at hi
+  have hg : qmtpdRcptGuard ≤ qmtpdBuf := by decide
+  by_cases c : len + rcl ≥ qmtpdRcptGuard
+  · rw [if_pos c] at hi; simp at hi
+  · rw [if_neg c] at hi
+    simp only [List.mem_append, List.mem_range, List.mem_singleton] at hi
+    rcases hi with (hi | hi) | hi
+    · omega
+    · omega
+    · cases relay
+      · simp at hi
+      · simp only [if_true, List.mem_map, List.mem_range] at hi
+        obtain ⟨a, ha, rfl⟩ := hi; omega
+
+/-- **qmail-qmtpd replies**: "Kok <now> qp <pid>" fits `buf2[100]`, and the reply netstring built in
+`buf` fits for every result text qmail_close() can return (at most `errstr[256]` − 1 bytes), given
+that fmt_ulong writes at most 20 digits for a 64-bit value. -/
+theorem C20_qmtpd_reply_bufs (d1 d2 d rl : Nat) (h1 : d1 ≤ 20) (h2 : d2 ≤ 20) (hd : d ≤ 20) (hr : rl < qqErrstr) :
+    qmtpdKokLen d1 d2 ≤ qmtpdBuf2 ∧ qmtpdReplyLen d rl ≤ qmtpdBuf := by
+  have e1 : qmtpdBuf2 = 100 := by decide
+  have e2 : qmtpdBuf = 1000 := by decide
+  have e3 : qqErrstr = 256 := by decide
+  unfold qmtpdKokLen qmtpdReplyLen
+  omega
+
+/-- **qmail-getpw `username[32]`** -/
+theorem C20_getpw_username (k : Nat) : ∀ i ∈ getpwStores getpwGuard k, i < getpwUserlen := by
+  intro i hi
+  unfold getpwStores at hi
+  have hg : getpwGuard ≤ getpwUserlen := by decide
+  by_cases c : k < getpwGuard
+  · rw [if_pos c] at hi; exact mem_range_append_lt (by omega) hi
+  · rw [if_neg c] at hi; simp at hi
+
+/-- **qmail.c `errstr[256]`**: however many bytes the queue program writes on descriptor 6, every
+store (the bytes read and the final NUL) is inside `errstr`. -/
+theorem C20_qq_errstr (avail : Nat) : ∀ i ∈ errstrStores qqErrGuard avail, i < qqErrstr := by
+  intro i hi
+  unfold errstrStores at hi
+  have hg : qqErrGuard < qqErrstr := by decide
+  obtain ⟨b1, b2⟩ := errstrLoop_bound qqErrGuard avail 0 (Nat.zero_le _)
+  simp only [List.mem_append, List.mem_singleton] at hi
+  rcases hi with hi | hi
+  · have := b1 i hi; omega
+  · omega
+
+/-- **spawn.c slots**: a delivery is started only in a slot `< auto_spawn` (the `d[]` array has
+`auto_spawn + 10` elements) that was free, and `read(…,inbuf,128)` asks for no more than `inbuf` holds. -/
+theorem C20_spawn_slot (st : Nq.Spawn.St) :
+    (∀ slot s r a, Nq.Spawn.Ev.spawnCall slot s r a ∈ (Nq.Spawn.docmd st).2 →
+        slot < Nq.Gen.auto_spawn ∧ slot < Nq.Gen.auto_spawn + spawnExtra ∧ Nq.Spawn.slotUsed st.slots slot = false) ∧
+    ((Nq.Spawn.docmd st).1.slots ≠ st.slots → st.delnum < Nq.Gen.auto_spawn) ∧
+    spawnRead ≤ spawnInbuf := by
+  refine ⟨?_, ?_, by decide⟩
+  · intro slot s r a hm
+    rcases Nq.Lemmas.SpawnL.docmd_cases st with ⟨t, _, e⟩ | ⟨hc, j, _, h⟩
+    · rw [e] at hm; simp at hm
+    · rcases h with ⟨t, e, _⟩ | ⟨_, e⟩ | ⟨_, e⟩
+      · rw [e] at hm; simp at hm
+      · rw [e] at hm; simp at hm
+        obtain ⟨rfl, _⟩ := hm; exact ⟨hc.1, by have := hc.1; omega, hc.2.1⟩
+      · rw [e] at hm; simp at hm
+        obtain ⟨rfl, _⟩ := hm; exact ⟨hc.1, by have := hc.1; omega, hc.2.1⟩
+  · intro hne
+    rcases Nq.Lemmas.SpawnL.docmd_cases st with ⟨t, _, e⟩ | ⟨hc, j, _, h⟩
+    · rw [e] at hne; exact absurd rfl hne
+    · exact hc.1
+
+/-- **spawn.c report truncation**: a child's accumulated output never exceeds `truncreport` once it
+has been cut, and the cut only *lowers* `output.len` (so the shortened length is inside the block). -/
+theorem C20_spawn_truncreport (k : Nq.Spawn.Kind) (out chunk : Bytes)
+    (ht : Nq.Spawn.truncreport k > Nq.Gen.SpawnTexts.TRUNC_MIN) (ho : out.length ≤ Nq.Spawn.truncreport k) :
+    (Nq.Spawn.accumulate k out chunk).length ≤ Nq.Spawn.truncreport k ∧
+    Nq.Spawn.truncreport k - Nq.Gen.SpawnTexts.TRUNCMESS.length - Nq.Gen.SpawnTexts.TRUNC_SLACK ≤ (out ++ chunk).length ∨
+    (Nq.Spawn.accumulate k out chunk) = out ++ chunk ∧ (out ++ chunk).length ≤ Nq.Spawn.truncreport k := by
+  unfold Nq.Spawn.accumulate
+  have e1 : Nq.Gen.SpawnTexts.TRUNCMESS.length = 31 := by decide
+  have e2 : Nq.Gen.SpawnTexts.TRUNC_SLACK = 3 := by decide
+  have e3 : Nq.Gen.SpawnTexts.TRUNC_MIN = 100 := by decide
+  simp only
+  by_cases c : Nq.Spawn.truncreport k > Nq.Gen.SpawnTexts.TRUNC_MIN ∧ (out ++ chunk).length > Nq.Spawn.truncreport k
+  · rw [if_pos c]; left
+    simp only [List.length_append, List.length_take] at c ⊢
+    omega
+  · rw [if_neg c]; right
+    refine ⟨rfl, ?_⟩
+    have : ¬ (out ++ chunk).length > Nq.Spawn.truncreport k := fun h => c ⟨ht, h⟩
+    omega
+
+/-- **qmail-send REPORTMAX**: whatever a spawner writes on the report descriptor, `dline[c].len`
+never exceeds REPORTMAX. -/
+theorem C20_send_reportmax (env : Nq.SendReport.Env) (st : Nq.SendReport.St) (s : Bytes)
+    (h : st.dlen ≤ Nq.Gen.REPORTMAX) : (Nq.SendReport.feed env st s).1.dlen ≤ Nq.Gen.REPORTMAX :=
+  Nq.Lemmas.SendL.feed_dlen env st s h
+
+/-- **qmail-pop3d msgno()**: an accepted message number is an index `< numm` that fits `int`. -/
+theorem C20_pop3_msgno (s : Nq.Pop3.Sess) (arg : Bytes) (i : Nat) (h : Nq.Pop3.msgno s arg = .ok i) :
+    i < s.msgs.length ∧ i < Nq.Pop3.INT_MAX := by
+  unfold Nq.Pop3.msgno at h
+  generalize Nq.Pop3.scanUlong arg = r at h
+  obtain ⟨u, pos⟩ := r
+  simp only at h
+  split at h
+  · cases h
+  · split at h
+    · cases h
+    · split at h
+      · cases h
+      · rename_i hb
+        split at h
+        · split at h
+          · cases h
+          · cases h; omega
+        · cases h
+
+end fixed
+
+/-! ## (d) dns.c -/
+
+section dns
+open Nq.Dns
+
+/-- **findname / findip / findmx** (the code as it is now, `fixed` = what the translator saw in
+dns.c): for every response, every position inside it and every `dn_expand` that honours its contract,
+each byte dns.c reads is inside the response, each offset passed to dn_expand is at most its end, and
+`responsepos` does not pass `responseend`. -/
+theorem C20_dns_find_in_bounds (k : Kind) (resp : Bytes) (dn : Nat → Option Nat) (want : Nat) (st : St)
+    (hp : st.pos ≤ resp.length) (hdn : DnOk resp dn) :
+    StepIn resp (find k dnsRdataChecked resp dn want st) := by
+  have : dnsRdataChecked = true := by decide
+  rw [this]; exact (find_in k resp dn want st hp hdn).1
+
+/-- the whole answer loop of dns_ptr / dns_ip / dns_mxip, for any number of records -/
+theorem C20_dns_walk_in_bounds (k : Kind) (resp : Bytes) (dn : Nat → Option Nat) (want fuel : Nat) (st : St)
+    (hp : st.pos ≤ resp.length) (hdn : DnOk resp dn) :
+    ∀ s ∈ walk k dnsRdataChecked resp dn want fuel st, StepIn resp s := by
+  have : dnsRdataChecked = true := by decide
+  rw [this]; exact walk_in k resp dn want fuel st hp hdn
+
+/-- the loop ends (2 or DNS_SOFT) after at most `numanswers + 1` calls -/
+theorem C20_dns_walk_terminates (k : Kind) (resp : Bytes) (dn : Nat → Option Nat) (want fuel : Nat) (st : St)
+    (hp : st.pos ≤ resp.length) (hdn : DnOk resp dn) (hf : st.num < fuel) :
+    ∃ s, (walk k true resp dn want fuel st).getLast? = some s ∧ (s.r = .soft ∨ s.r = .done) :=
+  walk_ends k resp dn want fuel st hp hdn hf
+
+/-- the question-section walk of resolve() leaves `responsepos ≤ responseend` -/
+theorem C20_dns_questions_in_bounds (resp : Bytes) (dn : Nat → Option Nat) (hl : HFIXEDSZ ≤ resp.length)
+    (hdn : DnOk resp dn) :
+    (resolve resp dn).2.pos ≤ resp.length ∧ ∀ p ∈ (resolve resp dn).1.dns, p ≤ resp.length := by
+  unfold resolve
+  exact questions_in resp dn _ _ hl hdn
+
+/-- **the defect repaired by 367ee1b, kept as a theorem about the old code**: without the comparison
+of RDLENGTH with the bytes left, a 23-byte response that ends right after an A record header makes
+findip read offsets 23..26 — beyond the response. -/
+theorem C20_dns_prefix_overread :
+    ((find .ip false [0,0,0,0, 0,0,0,1, 0,0,0,0,  0,  0,1, 0,1, 0,0,0,0, 0,4]
+        (fun p => if p = 12 then some 1 else none) 1 ⟨12, 1⟩).reads.any (· ≥ 23)) = true ∧
+    StepIn [0,0,0,0, 0,0,0,1, 0,0,0,0,  0,  0,1, 0,1, 0,0,0,0, 0,4]
+      (find .ip true [0,0,0,0, 0,0,0,1, 0,0,0,0,  0,  0,1, 0,1, 0,0,0,0, 0,4]
+        (fun p => if p = 12 then some 1 else none) 1 ⟨12, 1⟩) := by
+  decide
+
+end dns
+
+/-! ## (e) cdb reader -/
+
+section cdb
+open Nq.Users
+
+/-- **cdb_seek on any file (corrupt, truncated, hostile)**: a record is reported only after its 8-byte
+header and its whole key were read from inside the file — every offset taken from the file is validated by
+the read that follows it (a short read is an error), there is no in-memory index. -/
+theorem C20_cdb_seek_in_file (f key : Bytes) (dpos dlen : Nat) (h : cdbSeek f key = .found dpos dlen) :
+    dpos ≤ f.length ∧ key.length + 8 ≤ dpos :=
+  cdbSeek_in f key dpos dlen h
+
+/-- the data handed to the caller is a slice of the file of exactly the claimed length, or the lookup
+fails (`cdb_bread` short ⇒ error): a lying `dlen` cannot make the reader return bytes from elsewhere. -/
+theorem C20_cdb_get_slice (f key d : Bytes) (h : cdbGet f key = .found d) :
+    ∃ dpos, dpos ≤ f.length ∧ d = (f.drop dpos).take d.length ∧ dpos + d.length ≤ f.length := by
+  unfold cdbGet at h
+  split at h
+  · rename_i dpos dlen hs
+    simp only at h
+    by_cases c : ((f.drop dpos).take dlen).length = dlen
+    · rw [if_pos c] at h
+      cases h
+      refine ⟨dpos, (cdbSeek_in f key dpos dlen hs).1, by rw [c], ?_⟩
+      simp only [List.length_take, List.length_drop] at c ⊢
+      have := (cdbSeek_in f key dpos dlen hs).1
+      omega
+    · rw [if_neg c] at h; cases h
+  · cases h
+  · cases h
+
+end cdb
+
+/-! ## non-vacuity -/
+
+open Nq.Stralloc in
+example : WF 1 {} ∧ (catb (fun n => n ≤ 1000) {} 5).ret = true ∧ (catb (fun n => n ≤ 1000) {} 5).x = ⟨true, 5, 6, 6⟩ := by decide
+open Nq.Stralloc in
+example : (catb (fun _ => true) ⟨true, 4294967290, 4294967295, 4294967295⟩ 10).ret = false := by decide
+open Nq.Stralloc in
+example : (readyplusInternal 16 10 (fun _ => true) ⟨true, 0, 1, 16⟩ 268435455 0).ret = false := by decide
+open Nq.Substdio in
+example : OWF ⟨4, 0, [], [], [1, 0], []⟩ ∧ (put ⟨4, 0, [], [], [], []⟩ [1, 2, 3, 4, 5, 6]).1.out = [1, 2, 3, 4, 5, 6] := by decide
+open Nq.Substdio in
+example : (drain 10 ⟨3, 3, 0, [], [1, 2, 3, 4, 5], [2, 1], []⟩ 2).2.1.flatten = [1, 2, 3, 4, 5] := by decide
+open Nq.Dns in
+example : DnOk [0,0,0,0, 0,0,0,1, 0,0,0,0, 0, 0,1, 0,1, 0,0,0,0, 0,4, 1,2,3,4] (fun p => if p = 12 then some 1 else none) ∧
+    (find .ip true [0,0,0,0, 0,0,0,1, 0,0,0,0, 0, 0,1, 0,1, 0,0,0,0, 0,4, 1,2,3,4] (fun p => if p = 12 then some 1 else none) 1 ⟨12, 1⟩).r = .ip 1 2 3 4 := by
+  constructor
+  · intro p i h; by_cases c : p = 12 <;> simp [c] at h; subst h; subst c; decide
+  · decide
+
+end Nq.Props.C20
